@@ -296,10 +296,10 @@ TokM == TokQ \cup {"xml", "-", "http"}                   \* export, thorough
 FTokQ == {"osm", "osc", "pbf", "o5c", "gz", "foo", ""}
 FTokT == Keywords \cup {"foo", ""}
 NamesForFs == {<<>>, <<"test">>, <<"test", "osh", "pbf", "gz">>, <<"http://h/api">>, <<"-">>, <<"http">>}
-NamesForFsFew == {<<>>, <<"test", "osh", "pbf", "gz">>, <<"http://h/api">>, <<"-">>}
+NamesForFsFew == {<<>>, <<"test", "osh", "pbf", "gz">>, <<"http://h/api">>, <<"https://h/x">>, <<"-">>}
 OptsOne == {KV("history", VFalse)}
 OptsTwo == {KV("history", VFalse), KV("xml_change_format", VFalse), KeyOnly("")}
-NamesForFsMid == {<<>>, <<"test", "osh", "pbf", "gz">>, <<"http://h/api">>, <<"http">>, <<"-">>}
+NamesForFsMid == {<<>>, <<"test", "osh", "pbf", "gz">>, <<"http://h/api">>, <<"https://h/x">>, <<"http">>, <<"-">>}
 OptsEight == {KV("history", VTrue), KV("history", VFalse), KV("pbf_dense_nodes", <<"no">>), KV("xml_change_format", VFalse),
               KV("add_metadata", <<"version", "timestamp">>), KV("foo", <<"a=b">>), KeyOnly("history"), KeyOnly("")}
 NamesForOpts == {<<"test", "osm">>, <<"http://h/api", "osc">>}
